@@ -246,8 +246,9 @@ def rule_html(ctx: Ctx):
         ctx.ob("R-C20-5", "clean.html/query", okq,
                f"the query selects all non-blank text nodes whose parent is not one of style/link/head/script (excluded parents: {sorted(parents)})", node=xp[0], mod=m)
     rets = [r for r in walk_local(fn) if isinstance(r, ast.Return)]
-    okj = len(rets) == 1 and isinstance(rets[0].value, ast.Call) and norm(rets[0].value.func) == "' '.join" and xp and \
-        any(isinstance(s, ast.Assign) and s.value is xp[0] and norm(s.targets[0]) == norm(rets[0].value.args[0]) for s in stmts_local(fn.body))
+    okj = len(rets) == 1 and isinstance(rets[0].value, ast.Call) and norm(rets[0].value.func) == "' '.join" and xp and len(rets[0].value.args) == 1 and (
+        rets[0].value.args[0] is xp[0]
+        or any(isinstance(s, ast.Assign) and s.value is xp[0] and norm(s.targets[0]) == norm(rets[0].value.args[0]) for s in stmts_local(fn.body)))
     ctx.ob("R-C20-5", "clean.html/joined-in-document-order", bool(okj), "the text nodes are joined with single spaces in the order xpath returns them (document order)",
            node=rets[0] if rets else fn, mod=m)
 
